@@ -97,12 +97,9 @@ Section Confine.
       destruct (c_gitignore c && _); [split; [reflexivity|exact H2]|].
       apply run_exts_sim. exact H2.
     - unfold hf_dir. change (c_gitignore c') with (c_gitignore c). rewrite !should_skip_dir_same. rewrite SS.
-      destruct (c_gitignore c).
-      + destruct (if should_skip_dir c (s_stack (visit (inc_inodes st) p)) p then Some None
-                  else match parse_dir_gi p ch with GiErr => None | GiOk m => Some m end) as [m|]; [|split; [reflexivity|exact H2]].
-        rewrite !s_stack_set. change (should_skip_dir c' ?a ?b) with (should_skip_dir c a b).
-        destruct (should_skip_dir c _ p); (split; [reflexivity|apply sk_set_stack; exact H2]).
-      + destruct (should_skip_dir c _ p); (split; [reflexivity|exact H2]).
+      destruct (should_skip_dir c (s_stack (visit (inc_inodes st) p)) p); destruct (c_gitignore c);
+        try (split; [reflexivity|exact H2]); try (split; [reflexivity|apply sk_set_stack; exact H2]).
+      destruct (parse_dir_gi p ch) as [|m]; (split; [reflexivity|]); [exact H2|apply sk_set_stack; exact H2].
   Qed.
 
   Lemma post_sim nd r r' : sim_res r r' -> sim_res (post c nd r) (post c' nd r').
